@@ -75,3 +75,17 @@ pure encLen(x Int) Int = x == 0 ? 0 : (x < 128 ? 1 : (x < 32768 ? 2 : (x < 83886
 lemma ListByEpochExact [C20] finding F_C20_reputation_epoch_prefix (encLen(e) != encLen(f)) : forall e Int, f Int, p Bytes :: 0 <= e && e < 4294967296 && 0 <= f && f < 4294967296 && len(p) == 33
         && prefix("c" ++ enc(e), "c" ++ enc(f) ++ p) ==> e == f
 @*/
+
+/*@
+module upgrade
+props C16
+use common core
+use common vote
+dialect neovm
+
+// C16: an upgrade runs only from a supported older version: oldest supported <= deployed version < new version.
+pure lastarg(d Any) Int = asint(aslist(d)[len(aslist(d)) - 1])
+
+func _deploy(data, isUpdate)
+  ensures [C16] isUpdate ==> PrevVersion <= lastarg(data) && lastarg(data) < Version
+@*/
